@@ -98,8 +98,28 @@ def make(rng, kind, d=2):
             proper = np.abs(a2) > 1e-9
             if (np.sign(a2[proper]) == np.sign(b2[proper])).all() and np.abs(b2[proper]).min() > 1.0:
                 t = ms.PointCloud(ti)
-        # (the live object gets its own copies: the recipe's closure must not share the point clouds the object holds)
-        return cls(s.copy(), t.copy()), (lambda: cls(s.copy(), t.copy()))
+        if kind != "PWA_degenerate_triangle" and rng.random() < 0.3:
+            # the source is a mesh in its own right - its own triangle list (one edge flipped: not the Delaunay one), coloured
+            # or textured or plain: "the triangulation on the TriMesh is used"
+            import menpo.shape as ms
+            tl_f = flip_an_edge(rng, s.points, np.asarray(t.points, dtype=float), s.trilist)
+            if tl_f is not None:
+                mk = int(rng.integers(0, 3))
+                if mk == 0:
+                    s = ms.TriMesh(s.points, trilist=tl_f)
+                elif mk == 1:
+                    s = ms.ColouredTriMesh(s.points, trilist=tl_f, colours=rng.random((len(s.points), 3)))
+                else:
+                    from menpo.image import Image
+                    s = ms.TexturedTriMesh(s.points, rng.random((len(s.points), 2)), Image(rng.random((1, 5, 6))), trilist=tl_f)
+        given_tl = np.array(s.trilist, copy=True)
+
+        def build():
+            # (the live object gets its own copies: the recipe's closure must not share the point clouds the object holds)
+            o = cls(s.copy(), t.copy())
+            o._vf_given_trilist = given_tl          # the triangles of the source as handed over (read by the reference map)
+            return o
+        return build(), build
     if kind == "ThinPlateSplines":
         s, t = tps_pair(rng)
         k = int(rng.integers(0, 3))
@@ -310,8 +330,10 @@ def bystander_history(rng, t, d=None, n=None):
     if d is None:
         d = in_dim(t, 2)
     h = getattr(t, "h_matrix", None)
+    homog = h is not None and h.shape == (d + 1, d + 1)
+    menu = ([0, 1, 2] if homog else []) + ([3, 3] if hasattr(t, "pseudoinverse") else []) + [4, 5] + ([6] if hasattr(t, "as_vector") else [])
     for _ in range(int(rng.integers(1, 4)) if n is None else n):
-        k = int(rng.integers(0, 7))
+        k = int(menu[rng.integers(0, len(menu))])
         try:
             if k <= 2 and h is not None and h.shape == (d + 1, d + 1):
                 other = [lambda: mt.Translation(rng.uniform(-6, 6, d)), lambda: mt.UniformScale(float(rng.uniform(0.5, 2.0)), d),
@@ -324,8 +346,7 @@ def bystander_history(rng, t, d=None, n=None):
                 else:
                     other.compose_before(t); other.compose_after(t); done.append("composed_by_another")
             elif k == 3:
-                if getattr(t, "has_true_inverse", False):
-                    t.pseudoinverse(); done.append("pseudoinverse")
+                t.pseudoinverse(); done.append("pseudoinverse")
             elif k == 4:
                 t.copy(); done.append("copy")
             elif k == 5:
